@@ -103,14 +103,39 @@ func runC15(idx int, rng *rand.Rand, tier string) []Case {
 			src.WriteString("\n")
 		}
 	}
+	// every other case: default headers as repeated -header flags build them (three values for the key
+	// the targets also set themselves: a slice with spare capacity), which every target must get as
+	// its own copy, followed by its own value
+	var defaults http.Header
+	if n%2 == 1 {
+		defaults = http.Header{}
+		for _, v := range []string{"d0", "d1", "d2"} {
+			defaults["X-Id"] = append(defaults["X-Id"], v)
+		}
+		defaults["X-Def"] = []string{"a"}
+	}
 	var tr vegeta.Targeter
 	if kind == 1 {
-		tr = vegeta.NewJSONTargeter(bytes.NewReader(src.Bytes()), nil, nil)
+		tr = vegeta.NewJSONTargeter(bytes.NewReader(src.Bytes()), nil, defaults)
 	} else {
-		tr = vegeta.NewHTTPTargeter(bytes.NewReader(src.Bytes()), nil, nil)
+		tr = vegeta.NewHTTPTargeter(bytes.NewReader(src.Bytes()), nil, defaults)
+	}
+	// the header a drawn target must carry, now and when every draw is over
+	headerOK := func(t *vegeta.Target, id string) bool {
+		v := t.Header["X-Id"]
+		if defaults == nil {
+			return len(v) == 1 && v[0] == id
+		}
+		d := t.Header["X-Def"]
+		return len(v) == 4 && v[0] == "d0" && v[1] == "d1" && v[2] == "d2" && v[3] == id && len(d) == 1 && d[0] == "a"
 	}
 	type call struct{ s, e, out int64 }
 	calls := make([][]call, callers)
+	type keptT struct {
+		t  *vegeta.Target
+		at int
+	}
+	kept := make([][]keptT, callers)
 	var wg sync.WaitGroup
 	for g := 0; g < callers; g++ {
 		wg.Add(1)
@@ -129,14 +154,13 @@ func runC15(idx int, rng *rand.Rand, tier string) []Case {
 					exhausted++
 				case err == nil:
 					id, perr := strconv.ParseInt(strings.TrimPrefix(t.URL, "http://t.example/"), 10, 64)
-					hid := ""
-					if v := t.Header["X-Id"]; len(v) == 1 {
-						hid = v[0]
-					}
-					if perr != nil || hid != strconv.FormatInt(id, 10) || t.Method != "POST" || (format == "json" && string(t.Body) != hid) {
+					hid := strconv.FormatInt(id, 10)
+					if perr != nil || !headerOK(&t, hid) || t.Method != "POST" || (format == "json" && string(t.Body) != hid) {
 						out = -3
 					} else {
 						out = id
+						tc := t
+						kept[g] = append(kept[g], keptT{&tc, len(calls[g])})
 					}
 				}
 				calls[g] = append(calls[g], call{s, e, out})
@@ -149,6 +173,16 @@ func runC15(idx int, rng *rand.Rand, tier string) []Case {
 	go func() { wg.Wait(); close(waited) }()
 	select {
 	case <-waited:
+		// every target handed out is looked at again now that all draws are over: a later draw must
+		// not have changed it (targets sharing a header slice or a body buffer)
+		for g := range kept {
+			for _, k := range kept[g] {
+				hid := strconv.FormatInt(calls[g][k.at].out, 10)
+				if !headerOK(k.t, hid) || (format == "json" && string(k.t.Body) != hid) {
+					calls[g][k.at].out = -3
+				}
+			}
+		}
 	case <-time.After(20 * time.Second):
 		stuck = true
 		calls = make([][]call, callers) // the blocked callers still own their slices
